@@ -287,6 +287,25 @@ def check_C03(chk):
                 chk.failing_input("one-shot server scenarios did not complete on the %s build (%d of %d): %s" % (fl, seen, len(slines) + len(nlines), err[-300:]),
                                   {"build": fl}, key="srvdisc:%s:incomplete" % fl)
             chk.coverage.setdefault("server_disconnect_scenarios", {})[fl] = seen
+        # receivers watched through a receiver set: after a burst of messages (more than any per-event budget) the last sender goes; the
+        # set must deliver all of them and then report the closure instead of waiting for ever
+        from . import props_set as PS
+        brng = random.Random(chk.seed + 13)
+        bcases = []
+        for i in range(24 if thorough else 6):
+            m = brng.randint(1, 3)
+            bcases.append({"id": 300000 + i, "plans": [([40] * brng.choice([5, 66, 100, 129, 150]), True) for _ in range(m)], "late": [False] * m,
+                           "mode": ["after", "before"][i % 2], "threads": 1 if i % 2 == 0 else m, "level": ["os", "ipc"][(i // 2) % 2]})
+        blines = ["id=%d plan=%s mode=%s threads=%d eintr=0%s" % (c["id"], PS.plan_str(c["plans"]), c["mode"], c["threads"], " level=ipc" if c["level"] == "ipc" else "") for c in bcases]
+        for fl in ("default", "inprocess"):
+            brecs, _, brc, berr = C.run_harness(bins[fl], "rset", blines, shim=False, timeout=300)
+            bby = {r["id"]: r for r in brecs if r.get("kind") == "rset"}
+            for c in bcases:
+                why = PS.rset_oracle({"case": c, "rec": bby.get(c["id"]), "stderr": berr})
+                if why:
+                    chk.failing_input("receivers watched through a receiver set, last sender dropped after a burst: " + why,
+                                      {"build": fl, "plan": PS.plan_str(c["plans"]), "mode": c["mode"], "level": c["level"]}, key="c03set:%s:%s:%s" % (fl, PS.plan_str(c["plans"])[:120], c["mode"]))
+            chk.coverage.setdefault("set_disconnect_scenarios", {})[fl] = len(bby)
     chk.assumptions += ["that a thread blocked in recvmsg/poll is woken when the last sender reference disappears is kernel behaviour (modelled as: the receive step is enabled "
                         "and yields Disconnected); it is exercised by the wake driver under a watchdog"]
 
